@@ -1351,8 +1351,13 @@ impl Options {
         };
         // The digit writers emit all the significant digits before they are
         // truncated to `max_significant_digits`, and the decimal writer needs
-        // room for a whole `u64` to do so.
-        let digits = max!(digits, u64::FORMATTED_SIZE_DECIMAL);
+        // room for a whole `u64` to do so. The other writers emit every digit
+        // of the mantissa (53 in binary) before they trim the trailing zeros.
+        let digits = if radix == 10 {
+            max!(digits, u64::FORMATTED_SIZE_DECIMAL)
+        } else {
+            max!(digits, formatted_digits)
+        };
         count += digits;
 
         // we need to make sure we have at least enough room for the
